@@ -1042,6 +1042,8 @@ pub mod verif {
     pub fn expand_alias(sh: &Shell, tokens: &mut Tokens) { super::expand_alias(sh, tokens) }
     pub fn expand_home(tokens: &mut Tokens) { super::expand_home(tokens) }
     pub fn need_expand_brace(line: &str) -> bool { super::need_expand_brace(line) }
+    pub fn do_command_substitution(sh: &mut Shell, tokens: &mut Tokens) { super::do_command_substitution(sh, tokens) }
+    pub fn expand_glob(tokens: &mut Tokens) { super::expand_glob(tokens) }
 }
 
 #[cfg(test)]
